@@ -330,14 +330,14 @@ CHECK_DEADLOCK FALSE
 				continue
 			}
 			ctors := map[string]func(float64) error{
-				"NewLogarithmicMapping":          func(a float64) error { _, e := mapping.NewLogarithmicMapping(a); return e },
-				"NewLinearlyInterpolatedMapping": func(a float64) error { _, e := mapping.NewLinearlyInterpolatedMapping(a); return e },
-				"NewCubicallyInterpolatedMapping": func(a float64) error { _, e := mapping.NewCubicallyInterpolatedMapping(a); return e },
-				"NewDefaultMapping":              func(a float64) error { _, e := mapping.NewDefaultMapping(a); return e },
-				"NewDefaultDDSketch":             func(a float64) error { _, e := ddsketch.NewDefaultDDSketch(a); return e },
-				"LogUnboundedDenseDDSketch":      func(a float64) error { _, e := ddsketch.LogUnboundedDenseDDSketch(a); return e },
-				"LogCollapsingLowestDenseDDSketch": func(a float64) error { _, e := ddsketch.LogCollapsingLowestDenseDDSketch(a, 8); return e },
-				"LogCollapsingHighestDenseDDSketch": func(a float64) error { _, e := ddsketch.LogCollapsingHighestDenseDDSketch(a, 8); return e },
+				"NewLogarithmicMapping":                        func(a float64) error { _, e := mapping.NewLogarithmicMapping(a); return e },
+				"NewLinearlyInterpolatedMapping":               func(a float64) error { _, e := mapping.NewLinearlyInterpolatedMapping(a); return e },
+				"NewCubicallyInterpolatedMapping":              func(a float64) error { _, e := mapping.NewCubicallyInterpolatedMapping(a); return e },
+				"NewDefaultMapping":                            func(a float64) error { _, e := mapping.NewDefaultMapping(a); return e },
+				"NewDefaultDDSketch":                           func(a float64) error { _, e := ddsketch.NewDefaultDDSketch(a); return e },
+				"LogUnboundedDenseDDSketch":                    func(a float64) error { _, e := ddsketch.LogUnboundedDenseDDSketch(a); return e },
+				"LogCollapsingLowestDenseDDSketch":             func(a float64) error { _, e := ddsketch.LogCollapsingLowestDenseDDSketch(a, 8); return e },
+				"LogCollapsingHighestDenseDDSketch":            func(a float64) error { _, e := ddsketch.LogCollapsingHighestDenseDDSketch(a, 8); return e },
 				"NewDefaultDDSketchWithExactSummaryStatistics": func(a float64) error { _, e := ddsketch.NewDefaultDDSketchWithExactSummaryStatistics(a); return e },
 			}
 			for name, f := range ctors {
@@ -352,8 +352,8 @@ CHECK_DEADLOCK FALSE
 	for tok, vals := range gamVals {
 		for _, v := range vals {
 			ctors := map[string]func(float64) error{
-				"NewLogarithmicMappingWithGamma":          func(g float64) error { _, e := mapping.NewLogarithmicMappingWithGamma(g, 0); return e },
-				"NewLinearlyInterpolatedMappingWithGamma": func(g float64) error { _, e := mapping.NewLinearlyInterpolatedMappingWithGamma(g, 1.5); return e },
+				"NewLogarithmicMappingWithGamma":           func(g float64) error { _, e := mapping.NewLogarithmicMappingWithGamma(g, 0); return e },
+				"NewLinearlyInterpolatedMappingWithGamma":  func(g float64) error { _, e := mapping.NewLinearlyInterpolatedMappingWithGamma(g, 1.5); return e },
 				"NewCubicallyInterpolatedMappingWithGamma": func(g float64) error { _, e := mapping.NewCubicallyInterpolatedMappingWithGamma(g, -2); return e },
 			}
 			for name, f := range ctors {
